@@ -221,7 +221,7 @@ func genCtorLeaseSetDefects(g *G) {
 func genCtorLeaseSet2(g *G, rich bool) {
 	r := g.R
 	keySpecs := []string{"4:32", "0:256", "4:32,0:256", "5:32,4:32", "6:32", "7:32", "65280:10", "1:64", "4:32,4:32,4:32,4:32,4:32,4:32,4:32,4:32,4:32,4:32,4:32,4:32,4:32,4:32,4:32,4:32"}
-	offs := []string{"-", "7", "11", "1"}
+	offs := []string{"-", "7", "11", "1", "2", "0"} // incl. transient types whose signature length differs from the destination's (P-384: 96, DSA: 40)
 	g.in("ls2-valid")
 	i := 0
 	for _, sig := range []int{7, 11, 1, 0} {
